@@ -37,8 +37,12 @@ class RecBase(EqByMode):
         # EV_FALSY classes produce falsy instances (like an empty container-style component)
         return not self._falsy
 
+    _observer = None    # set per run: called from inside every callback (what do queries say right now?)
+
     def _rec(self, kind, args):
         self._log.append((kind, self, args))
+        if RecBase._observer is not None:
+            RecBase._observer(self, kind, args)
         hook = self.__dict__.get('_react')
         if hook is not None:
             hook(self, kind, args)
